@@ -659,4 +659,27 @@ def inBox : List Nat → List (Nat × Nat) → Bool
 /-- a multi-index of a variable of that shape -/
 def inShape (idx shape : List Nat) : Bool := inBox idx (shape.map (fun x => (0, x)))
 
+/-! ## 5. cdfdiff reads a variable in chunks of READ_CHUNK_SIZE bytes -/
+
+/-- cdfdiff.c main(): `nChunks = remainLen / READ_CHUNK_SIZE; if (remainLen % READ_CHUNK_SIZE) nChunks++;` -/
+def nChunks (n chunk : Nat) : Nat := n / chunk + (if n % chunk ≠ 0 then 1 else 0)
+
+/-- the loop `for (k=0; k<nChunks; k++)` of cdfdiff on one variable / one record: `x`, `y` are the rests of the
+    two files from the record's offsets (read() continues where the previous one stopped), `remain` is remainLen.
+    Each step reads `rSize = MIN(remainLen, READ_CHUNK_SIZE)` bytes from both files; different read sizes or
+    different bytes end the comparison with a difference; `remainLen -= rdLen[0]`.  true = no difference. -/
+def chunkLoop (chunk : Nat) : Nat → Bytes → Bytes → Nat → Bool
+  | 0, _, _, _ => true
+  | k + 1, x, y, remain =>
+    let rSize := min remain chunk
+    let a := x.take rSize
+    let b := y.take rSize
+    if a.length ≠ b.length then false
+    else if a ≠ b then false
+    else chunkLoop chunk k (x.drop a.length) (y.drop a.length) (remain - a.length)
+
+/-- cdfdiff's comparison of the `n` bytes of one record at `off1` / `off2` of the two files -/
+def cdfdiffRecordSame (chunk : Nat) (f1 f2 : Bytes) (off1 off2 n : Nat) : Bool :=
+  chunkLoop chunk (nChunks n chunk) (f1.drop off1) (f2.drop off2) n
+
 end PnVerif.Tools
